@@ -34,9 +34,16 @@ pub enum Prior {
     SymlinkDir,
     /// ... to a directory that holds a UFO
     SymlinkUfo,
+    /// the parent directory of the target does not exist (create_dir must fail, nothing created)
     NoParent,
+    /// ... two levels are missing
+    NoParent2,
+    /// the parent of the target is a plain file
+    ParentIsFile,
+    /// the parent of the target is a dangling symbolic link
+    ParentDangling,
 }
-pub const PRIORS: [Prior; 13] = [
+pub const PRIORS: [Prior; 17] = [
     Prior::Absent,
     Prior::EmptyDir,
     Prior::OtherUfo,
@@ -50,14 +57,36 @@ pub const PRIORS: [Prior; 13] = [
     Prior::FormerUfo,
     Prior::SymlinkDir,
     Prior::SymlinkUfo,
+    Prior::NoParent,
+    Prior::NoParent2,
+    Prior::ParentIsFile,
+    Prior::ParentDangling,
 ];
+impl Prior {
+    /// where the save goes for this prior (relative to the sandbox)
+    pub fn target(self) -> &'static str {
+        match self {
+            Prior::NoParent => "nozone/t.ufo",
+            Prior::NoParent2 => "exports/v2/t.ufo",
+            Prior::ParentIsFile => "afile/t.ufo",
+            Prior::ParentDangling => "dangling/t.ufo",
+            _ => "zone/t.ufo",
+        }
+    }
+    /// the save cannot succeed because of what is at (or above) the target, whatever the font
+    pub fn blocks_save(self) -> bool {
+        matches!(self, Prior::PlainFile | Prior::NoParent | Prior::NoParent2 | Prior::ParentIsFile | Prior::ParentDangling)
+    }
+}
 pub fn prior_for(idx: u64) -> Prior {
     PRIORS[(idx % PRIORS.len() as u64) as usize]
 }
 
 pub fn make_prior(target: &Path, p: Prior, r: &mut Rng) {
     match p {
-        Prior::Absent | Prior::NoParent => {}
+        Prior::Absent | Prior::NoParent | Prior::NoParent2 => {}
+        Prior::ParentIsFile => std::fs::write(target.parent().unwrap(), b"a file where a directory should be").unwrap(),
+        Prior::ParentDangling => std::os::unix::fs::symlink("nowhere", target.parent().unwrap()).unwrap(),
         Prior::EmptyDir => std::fs::create_dir_all(target).unwrap(),
         Prior::OtherUfo => {
             let mut rc = Recipe::plain();
@@ -190,6 +219,10 @@ pub fn prepare_loaded(sb: &Path, r: &mut Rng, allow_bad_files: bool) -> Prepared
         std::fs::write(src.join("images").join(bad), b"GIF89a").unwrap();
         notes.push(format!("source has images/{} without the PNG signature", bad));
     }
+    // one or two LARGE store files (the lazy store must keep what it read, whatever the size)
+    if r.chance(1, 8) {
+        large_entries(&src, r, &mut notes);
+    }
     // glif files under names another editor may have left (not the default for the glyph name,
     // with upper-case letters), so that later insertions can aim at a name that is taken
     if r.chance(1, 2) {
@@ -223,6 +256,30 @@ pub fn prepare_loaded(sb: &Path, r: &mut Rng, allow_bad_files: bool) -> Prepared
     }
     p.shadow = shadow;
     p
+}
+
+/// data files of exactly 1 MiB, 1 MiB + 1 and 3 MiB, an image of 1 MiB + 1 with the PNG signature
+pub fn large_entries(src: &Path, r: &mut Rng, notes: &mut Vec<String>) {
+    const MIB: usize = 1 << 20;
+    let kinds: [(&str, usize, bool); 4] = [
+        ("data/big/one_mib.bin", MIB, false),
+        ("data/big/one_mib_plus_one.bin", MIB + 1, false),
+        ("data/three_mib.bin", 3 * MIB, false),
+        ("images/large.png", MIB + 1, true),
+    ];
+    let n = 1 + r.below(2);
+    for _ in 0..n {
+        let (rel, size, png) = *r.pick(&kinds);
+        let mut b: Vec<u8> = if png { PNG.to_vec() } else { vec![] };
+        let seed = r.below(251) as u8;
+        while b.len() < size {
+            b.push((b.len() as u8).wrapping_mul(31).wrapping_add(seed));
+        }
+        let f = src.join(rel);
+        std::fs::create_dir_all(f.parent().unwrap()).unwrap();
+        std::fs::write(&f, &b).unwrap();
+        notes.push(format!("source has {} of {} bytes", rel, size));
+    }
 }
 
 /// the plain files below `<ufo>/data` (recursively) and directly in `<ufo>/images`: (image?, key)
@@ -699,16 +756,14 @@ pub fn case(seed: u64, idx: u64, out: &Path, verbose: bool) -> CaseOut {
                 let (font, shadow) = build_font(&rc);
                 p = Prepared { font, shadow, groups_ok: true, info_valid: true, loaded_from: None, preserve: BTreeSet::new(), notes: vec![] };
             }
-            prior = if r.chance(1, 10) { Prior::NoParent } else { prior_for(idx) };
+            prior = prior_for(idx);
         }
     }
     try_store_keys(&mut p, &mut r);
     let target_rel: Vec<String> = if in_place {
         comps("src.ufo")
-    } else if prior == Prior::NoParent {
-        comps("nozone/t.ufo")
     } else {
-        comps("zone/t.ufo")
+        comps(prior.target())
     };
     if !in_place {
         make_prior(&sb.join(target_rel.join("/")), prior, &mut r);
@@ -717,6 +772,9 @@ pub fn case(seed: u64, idx: u64, out: &Path, verbose: bool) -> CaseOut {
     // ------------------------------------------------------------ property oracle
     let expect = expected_refusal(&p, &run.before);
     let mut why: Vec<String> = vec![];
+    if run.obs.1 == "PANIC" {
+        why.push(format!("Font::save panicked; the file system changed: {}", snap_diff(&run.before, &run.after).join(", ")));
+    }
     if let Some(v) = expect {
         if run.obs.1 != v {
             why.push(format!("expected refusal {} but the save returned {}", v, run.obs.1));
@@ -801,6 +859,9 @@ pub fn history_case(seed: u64, idx: u64, out: &Path, verbose: bool) -> Vec<CaseO
     }
     build_font(&rc).0.save(&src).unwrap();
     let mut notes: Vec<String> = vec![];
+    if r.chance(1, 5) {
+        large_entries(&src, &mut r, &mut notes);
+    }
     // entries in error: an image without the signature, a data file that vanishes after load
     let nerr = r.below(3);
     let mut vanish: Vec<String> = vec![];
@@ -916,7 +977,8 @@ pub fn history_case(seed: u64, idx: u64, out: &Path, verbose: bool) -> Vec<CaseO
             5 => {
                 let t = comps("zone/t.ufo");
                 if !sb.join("zone/t.ufo").exists() && !sb.join("zone/t.ufo").is_symlink() {
-                    make_prior(&sb.join("zone/t.ufo"), prior_for(idx / 5 + step), &mut r);
+                    let pr = prior_for(idx / 5 + step);
+                    make_prior(&sb.join("zone/t.ufo"), if pr.target() == "zone/t.ufo" { pr } else { Prior::JunkNoMeta }, &mut r);
                 }
                 t
             }
